@@ -77,6 +77,10 @@ fn spawn_collector_actor() -> Sender<u8> {
 
 impl Sched {
     fn spawn(&mut self, t: usize) {
+        self.spawn_with(t, None)
+    }
+
+    fn spawn_with(&mut self, t: usize, dtor: Option<Value>) {
         if self.actors.contains_key(&t) {
             self.misses += 1;
             return;
@@ -87,8 +91,20 @@ impl Sched {
         let join = std::thread::Builder::new()
             .name(format!("fv-actor-{t}"))
             .spawn(move || {
+                let early = dtor.as_ref().map(|d| d["when"] == "early").unwrap_or(false);
+                let mk = |d: &Value| crate::ops::DtorBox { t, rc: rc.clone(), ops: d["ops"].as_array().cloned().unwrap_or_default(), early };
+                if let (Some(d), true) = (dtor.as_ref(), early) {
+                    // registered before fastrace's thread-locals: destroyed after them
+                    crate::ops::DTOR.with(|c| *c.borrow_mut() = Some(mk(d)));
+                }
                 if let Some(chan) = verif::touch_sender() {
                     shared().chan_thread.lock().unwrap().insert(chan, t);
+                }
+                if let (Some(d), false) = (dtor.as_ref(), early) {
+                    // fastrace's thread-locals first (sender, span stack, id generator), then ours
+                    let _ = fastrace::prelude::SpanContext::current_local_parent();
+                    let _ = fastrace::prelude::SpanId::next_id();
+                    crate::ops::DTOR.with(|c| *c.borrow_mut() = Some(mk(d)));
                 }
                 rt::post(Role::Thread(t), StopKind::Done);
                 let mut actor = Actor { t };
@@ -393,7 +409,7 @@ impl Sched {
         let ev = step["ev"].as_str().unwrap_or("");
         let t = step["t"].as_u64().unwrap_or(0) as usize;
         match ev {
-            "spawn" => self.spawn(t),
+            "spawn" => self.spawn_with(t, if step["dtor"].is_object() { Some(step["dtor"].clone()) } else { None }),
             "call" => self.call(t, step),
             "push" => self.push(t),
             "cyc" => self.cyc(),
@@ -673,6 +689,10 @@ fn os_threads() -> usize {
     std::fs::read_dir("/proc/self/task").map(|d| d.count()).unwrap_or(0)
 }
 
+pub fn live_heap() -> i64 {
+    crate::LIVE.load(Ordering::Relaxed) as i64
+}
+
 fn stats_event(foreign: &[usize]) -> Value {
     let st = verif::collector_stats();
     let live: Vec<usize> = shared().chan_thread.lock().unwrap().keys().copied().collect();
@@ -683,6 +703,7 @@ fn stats_event(foreign: &[usize]) -> Value {
         "sets": st.active.iter().map(|a| a.buffered_sets).sum::<usize>(),
         "dang": st.active.iter().map(|a| a.danglings).sum::<usize>(),
         "deadrx": st.receivers.len(),
+        "heap": live_heap(),
     })
 }
 
